@@ -99,14 +99,14 @@ theorem step_dropColumn (h : Rel m db) (t c : String) (ht : t ≠ "") {tb tb' : 
       Table.removeColumn_action tm tm' c hs, ?_, hnames', ?_⟩
     · rw [Table.removeColumn_pending tm tm' c hs]; exact hp
     · intro x hx
-      obtain ⟨x0, hx0, hxn, hxt⟩ := hmem' x hx
-      obtain ⟨cs, hcs, hcsn, hcst⟩ := hty x0 hx0
+      obtain ⟨x0, hx0, hxn, hxt, hxo⟩ := hmem' x hx
+      obtain ⟨cs, hcs, hcsn, hcst, hcso⟩ := hty x0 hx0
       have hxin : x.name ∈ tb'.colNames := by rw [← hnames']; exact List.mem_map_of_mem hx
       have hne : x.name ≠ c := by
         rw [hcols] at hxin
         have := (List.mem_filter.mp hxin).2
         simpa using this
-      refine ⟨cs, ?_, hcsn.trans hxn, by rw [← hxt]; exact hcst⟩
+      refine ⟨cs, ?_, hcsn.trans hxn, by rw [← hxt]; exact hcst, by rw [← hxo]; exact hcso⟩
       rw [hcolsF]
       exact List.mem_filter.mpr ⟨hcs, by rw [hcsn, hxn]; simpa using hne⟩)
   exact ⟨m1, h1, hr.using_ t⟩
@@ -174,10 +174,10 @@ theorem step_modifyColumn (h : Rel m db) (t : String) (ht : t ≠ "") (c : ColDe
       (by rw [Table.addColumn_action tm1 tm2 _ true hs2, Table.addColumn_action tm tm1 _ true hs1]; exact (h.fresh tm hmemT).2)
       (by rw [hp2, hp1]; exact hp) hn (by rw [hn2, hn1, hcols, hcolsame]) (hnm.trans htn.symm) (by
         intro x hx
-        rcases hmem2 x hx with ⟨hx1, hxne⟩ | ⟨hxn, hxt⟩
+        rcases hmem2 x hx with ⟨hx1, hxne⟩ | ⟨hxn, hxt, old2, hold2, hold2n, hxo⟩
         · rcases hmem1 x hx1 with ⟨hx0, _⟩ | ⟨hxn', _⟩
-          · obtain ⟨cs, hcs, hcsn, hcst⟩ := hty x hx0
-            refine ⟨cs, ?_, hcsn, hcst⟩
+          · obtain ⟨cs, hcs, hcsn, hcst, hcso⟩ := hty x hx0
+            refine ⟨cs, ?_, hcsn, hcst, hcso⟩
             rw [hcolsM]
             refine List.mem_map.mpr ⟨cs, hcs, ?_⟩
             have : (cs.name == c.name) = false := by
@@ -187,8 +187,23 @@ theorem step_modifyColumn (h : Rel m db) (t : String) (ht : t ≠ "") (c : ColDe
         · obtain ⟨x0, hx0c, hx0n⟩ : ∃ x0 ∈ tb.cols, x0.name = c.name := by
             obtain ⟨y, hy, hyn⟩ := List.mem_map.mp ((hasCol_iff tb c.name).mp hc)
             exact ⟨y, hy, hyn⟩
+          -- the record the second call merges into is the one the first call left: no options
+          have hold2o : old2.cur.opts = [] := by
+            rcases hmem1 old2 hold2 with ⟨_, hne'⟩ | ⟨_, _, old1, _, _, ho1⟩
+            · exact absurd hold2n (by simpa [ColDef.toColumn] using hne')
+            · rw [ho1]; rfl
+          have hopts : (Table.optKinds x.cur.opts).Perm (colOf c).1.opts := by
+            rw [hxo, hold2o]
+            have h1 := Table.optKinds_pkSwap ((if (c.toColumn.action == .modify && true && c.toColumn.cur.typ.isSome) = true then [] else ([] : List Opt)) ++ c.toColumn.cur.opts)
+            have h2 : ((if (c.toColumn.action == .modify && true && c.toColumn.cur.typ.isSome) = true then [] else ([] : List Opt)) ++ c.toColumn.cur.opts) = c.opts := by
+              simp [ColDef.toColumn]
+            rw [h2] at h1
+            have h3 : (colOf c).1.opts = Table.optKinds c.opts := by
+              show (optsOf c.opts).1 = _
+              exact Table.optsOf_fst c.opts
+            rw [h3]; exact h1
           refine ⟨(colOf c).1, ?_, (by show (colOf c).1.name = x.name; rw [hxn]; rfl),
-            (by rw [hxt]; rfl)⟩
+            (by rw [hxt]; rfl), hopts⟩
           rw [hcolsM]
           refine List.mem_map.mpr ⟨x0, hx0c, ?_⟩
           simp [hx0n])
@@ -253,9 +268,12 @@ theorem typesOK_add {tm tm' : Table} {tb tb' : TableSpec} (c : ColDef) (hty : Ty
     (hmem : ∀ x ∈ tm'.cols, x ∈ tm.cols ∨ x = c.toColumn) : TypesOK tm' tb' := by
   intro x hx
   rcases hmem x hx with h1 | h1
-  · obtain ⟨cs, hcs, hn, ht⟩ := hty x h1
-    exact ⟨cs, hold cs hcs, hn, ht⟩
-  · rw [h1]; exact ⟨(colOf c).1, hnew, rfl, rfl⟩
+  · obtain ⟨cs, hcs, hn, ht, ho⟩ := hty x h1
+    exact ⟨cs, hold cs hcs, hn, ht, ho⟩
+  · rw [h1]
+    refine ⟨(colOf c).1, hnew, rfl, rfl, ?_⟩
+    have : (colOf c).1.opts = Table.optKinds c.opts := Table.optsOf_fst c.opts
+    rw [this]; exact List.Perm.refl _
 
 /-- ADD COLUMN without position -/
 theorem step_addColumn_none (h : Rel m db) (t : String) (ht : t ≠ "") (c : ColDef) {tb tb' : TableSpec}
